@@ -831,3 +831,53 @@ Print Assumptions C07_out_path_any_window.
 Print Assumptions C07_outcome_any_window.
 Print Assumptions C07_paths_reject_alike.
 Print Assumptions C07_out_path_custom_window0_refuted.
+
+(* ==== the chunked model at an ARBITRARY element type (coverage / mutation campaign: the hand-written Polars string impl
+   `Vec1View<Option<&str>> for &ChunkedArray<StringType>`, polars.rs:174-225, is observed by harness-pl c07pl.rs
+   `observe_str`, case tag `pl_str`, against `run_chunked`).  Every C07_chunked_* statement above (C07_chunked_get, _len,
+   C07_chunking_irrelevant, C07_chunked_collect.., _vget, _slice, _slice_chunks, _rev_titer, _checked_get, _empty_chunk,
+   C07_optview_of_chunked, C07_view_seq_backends, C07_backend_irrelevant_*_chunked) is already quantified `forall (A : Type)`:
+   they hold for strings as they stand, nothing had to be generalised.  What was instantiated at `float` is only the
+   INTERPRETER (`run_chunked : chunked float -> list Z`), because the harness renders each string (a decimal numeral) as the
+   float it denotes.  The two theorems below justify that rendering for every element type (Proofs/LooseEnds.v). ========== *)
+From Coq Require Import Floats.
+From Tevec Require Import Proofs.LooseEnds.
+From Tevec Require Run.Codec Run.RunC07.
+
+(* the accessors are natural in the element: rendering the elements (f) and then accessing = accessing and then rendering -
+   length, get (None past the end included), the flattened sequence, slices as sequences and as chunk layouts *)
+Theorem C07_chunked_accessors_natural_any_element :
+  forall (A B : Type) (f : A -> B) (c : chunked A),
+    chunked_to_list (chunked_map f c) = map (option_map f) (chunked_to_list c)
+    /\ chunked_len (chunked_map f c) = chunked_len c
+    /\ (forall i, chunked_get (chunked_map f c) i = option_map (option_map f) (chunked_get c i))
+    /\ (forall a b, chunked_slice (chunked_map f c) a b = map (option_map f) (chunked_slice c a b))
+    /\ (forall a b, chunked_slice_chunks (chunked_map f c) a b = chunked_map f (chunked_slice_chunks c a b)).
+Proof.
+  intros A B f c. split; [apply chunked_map_to_list|]. split; [apply chunked_map_len|].
+  split; [intros i; apply chunked_map_get|]. split; [intros a b; apply chunked_map_slice|].
+  intros a b. apply chunked_map_slice_chunks.
+Qed.
+
+(* what the correspondence run computes for an array whose elements were rendered as floats by `enc` (strings: the numeral's
+   value) IS the observation of the array itself - len, get 0..=len, titer, reversed, every slice - with the cell encoder
+   `c_float o enc`, for EVERY element type and EVERY rendering *)
+Theorem C07_chunked_observation_any_element :
+  forall (A : Type) (enc : A -> float) (c : chunked A),
+    Run.RunC07.run_chunked (chunked_map enc c)
+    = Run.RunC07.observe (Run.Codec.c_opt (fun x => Run.Codec.c_float (enc x))) (chunked_to_list c) None.
+Proof. exact @run_chunked_rendered. Qed.
+
+(* non-vacuity: an array of three chunks (one empty, nulls) over a two-letter element type rendered as floats *)
+Example C07_chunked_any_element_example :
+  let enc := fun b : bool => if b then 1%float else 2%float in
+  let c := [[Some true; None]; []; [Some false; Some true]] in
+  chunked_map enc c = [[Some 1%float; None]; []; [Some 2%float; Some 1%float]]
+  /\ chunked_get (chunked_map enc c) 2 = Some (Some 2%float) /\ chunked_get c 2 = Some (Some false)
+  /\ chunked_get (chunked_map enc c) 4 = None
+  /\ chunked_slice_chunks (chunked_map enc c) 1 3 = [[None]; []; [Some 2%float]]
+  /\ chunked_slice_chunks c 1 3 = [[None]; []; [Some false]].
+Proof. vm_compute. repeat split. Qed.
+
+Print Assumptions C07_chunked_accessors_natural_any_element.
+Print Assumptions C07_chunked_observation_any_element.
